@@ -42,6 +42,7 @@ def main():
     head = open(demo).read(600)
     m = re.search(r"place in:\s*([^\s(]+)", head)
     place = (m.group(1) if m else ".").strip().rstrip("/")
+    race = "-race " if "-race" in open(demo).read(1500) else ""
     if place in (".", "./"):
         place = ""
     wt = "/tmp/mt/wt-%s-%s" % (prop, i)
@@ -57,7 +58,7 @@ def main():
         dst = os.path.join(wt, place, "zz_seed_demo_test.go")
         shutil.copyfile(demo, dst)
         pkg = "./" + place if place else "."
-        rc0, out0 = sh("go test -vet=off -count=1 %s 2>&1" % pkg, cwd=wt)
+        rc0, out0 = sh("go test %s-vet=off -count=1 %s 2>&1" % (race, pkg), cwd=wt)
         demo_pass_unmodified = rc0 == 0
         meta["ran"].append("demo test on the unmodified library: %s" % ("PASS" if demo_pass_unmodified else "FAIL\n" + out0[-600:]))
         os.remove(dst)
@@ -68,7 +69,7 @@ def main():
         p, f = suite(wt)
         meta["ran"].append("library's own suite with the change: %d passed, %d failed" % (p, f))
         shutil.copyfile(demo, dst)
-        rc1, out1 = sh("go test -vet=off -count=1 %s 2>&1" % pkg, cwd=wt)
+        rc1, out1 = sh("go test %s-vet=off -count=1 %s 2>&1" % (race, pkg), cwd=wt)
         demo_fail_mutated = rc1 != 0
         meta["ran"].append("demo test with the change: %s" % ("FAIL (as required)" if demo_fail_mutated else "PASS (change not demonstrated)"))
         ok = applied and demo_pass_unmodified and demo_fail_mutated and f == 0 and p >= 240
